@@ -299,6 +299,8 @@ func (s *SMT) rangeFacts(term string, t types.Type, depth int) []string {
 	case *types.Slice:
 		name := s.sortOf(t)
 		out = append(out, fmt.Sprintf("(>= (len_%s %s) 0)", name, term))
+		// a slice cannot have more than 2^56 elements (address space): len+small never overflows
+		out = append(out, fmt.Sprintf("(<= (len_%s %s) 72057594037927936)", name, term))
 		out = append(out, fmt.Sprintf("(=> (nil_%s %s) (= (len_%s %s) 0))", name, term, name, term))
 	case *types.Pointer:
 		if s.isHeapPtr(t) {
